@@ -1,6 +1,251 @@
-/- Properties/C13.lean — placeholder; theorems follow. -/
-import DateutilVerif.Model.RRuleStr
+/-
+  Properties/C13.lean — rrulestr and str(rrule) are inverse; RFC text means the same as keywords.
+
+  Everything is about the model `Model/RRuleStr.lean` (tied to the code by the `rrs.str` / `rrs.parse`
+  correspondence): `toStr` = `rrule.__str__`, `parseRfc` = `_rrulestr._parse_rfc` up to the keyword
+  arguments `RArgs` handed to `rrule()` / the members handed to `rruleset`.  All theorems quantify over
+  ALL inputs (every text, every Int, every rule in printable normal form).
+
+  Not covered here (oracle / correspondence only): TZID / tzids / tzinfos / ignoretz plumbing
+  (`str_variants_partial` of the design is not a theorem), date values in spellings other than the compact
+  form `__str__` emits (they go through `parser.parse`, C02), and `rrule(**kwargs)` itself (C01).
+-/
+import DateutilVerif.Proofs.RRuleStrMalformed
+import DateutilVerif.Proofs.RRuleStrOrder
+import DateutilVerif.Proofs.RRuleStrSet
+import DateutilVerif.Proofs.RRuleStrSpell
 
 namespace C13
-theorem placeholder : True := trivial
+open RRuleStr
+open ICal (upper splitOnChar pyInt isDigit)
+
+/-! ## 1. decimal numbers -/
+
+/-- reading the decimal print of a natural number gives it back -/
+theorem showNat_roundtrip (n : Nat) : nat? (showNat n) = some n := nat?_showNat n
+
+/-- `str(n)` consists of digits only — in particular none of the separators `, ; = :` -/
+theorem showNat_digits_only (n : Nat) :
+    ∀ c ∈ showNat n, isDigit c = true ∧ c ≠ ',' ∧ c ≠ ';' ∧ c ≠ '=' ∧ c ≠ ':' := by
+  intro c hc
+  have h := showNat_digits n c hc
+  refine ⟨h, ?_, ?_, ?_, ?_⟩ <;> (rintro rfl; revert h; decide)
+
+/-- `int(str(i)) == i` -/
+theorem pyInt_showInt (i : Int) : pyInt (showInt i) = some i := RRuleStr.pyInt_showInt i
+
+/-- `int('%+d' % i) == i` -/
+theorem pyInt_showIntSigned (i : Int) : pyInt (showIntSigned i) = some i := RRuleStr.pyInt_showIntSigned i
+
+example : showNat_roundtrip 1997 = nat?_showNat 1997 := rfl
+example : (-366 : Int) < 0 ∧ pyInt (showInt (-366)) = some (-366) := ⟨by decide, pyInt_showInt _⟩
+
+/-! ## 2. every failure is a ValueError -/
+
+/-- whatever the text and the options, the only exception kind `rrulestr` (as modelled: line splitting, property and
+    parameter dispatch, part handlers, the FREQ and no-RRULE checks) ends in is ValueError -/
+theorem errors_are_ValueError (s : List Char) (o : Opts) (kw : Bool) (e : Py.PyErr)
+    (h : parseRfc s o kw = .error e) : e = .ValueError := parseRfc_onlyVE s o kw e h
+
+/-- a part `NAME=VALUE` whose upper-cased name has no `_handle_NAME` method (the sixteen handled names are INTERVAL, COUNT,
+    BYSETPOS, BYMONTH, BYMONTHDAY, BYYEARDAY, BYEASTER, BYWEEKNO, BYHOUR, BYMINUTE, BYSECOND, FREQ, UNTIL, WKST,
+    BYWEEKDAY, BYDAY) makes `_parse_rfc_rrule` fail with ValueError, wherever it stands in the line -/
+theorem unknown_part_ValueError {line value p name v : List Char} (hv : lineValue line = .ok value)
+    (hp : p ∈ splitOnChar ';' value) (hs : splitOnChar '=' p = [name, v]) (hn : upper name ∉ handledNames) :
+    parseRRuleLine line = .error .ValueError :=
+  parseRRuleLine_fails hv hp (badPart_fails (.unknown p name v hs hn))
+
+/-- a malformed part (`BadPart`: not exactly one `=`; a non-integer for INTERVAL / COUNT; a non-integer or empty item in an
+    integer list; an unknown FREQ or WKST name; a BYDAY / BYWEEKDAY item that `parseWDay` rejects) makes
+    `_parse_rfc_rrule` fail with ValueError, wherever it stands in the line -/
+theorem malformed_value_ValueError {line value p : List Char} (hv : lineValue line = .ok value)
+    (hp : p ∈ splitOnChar ';' value) (hbad : BadPart p) : parseRRuleLine line = .error .ValueError :=
+  parseRRuleLine_fails hv hp (badPart_fails hbad)
+
+/-- the BYDAY items that are rejected: the empty item, `n = 0` in either spelling (any weekday, any spelling of zero),
+    a name that is not a weekday -/
+theorem malformed_byday_items :
+    parseWDay [] = .error .ValueError ∧
+    (∀ (pre w : List Char) (k : Int), IsWD w k → pre ≠ [] → (∀ c ∈ pre, isSignDigit c = true) → pyInt pre = some 0 →
+      parseWDay (pre ++ w) = .error .ValueError) ∧
+    (∀ (inner w : List Char) (k : Int) (last : Char), IsWD w k → '(' ∉ inner → last ≠ '(' → pyInt inner = some 0 →
+      parseWDay (w ++ '(' :: (inner ++ [last])) = .error .ValueError) ∧
+    (∀ w : List Char, w ≠ [] → '(' ∉ w → (∀ c ∈ w, isSignDigit c = false) → lookup weekdayMap w = none →
+      parseWDay w = .error .KeyError) :=
+  ⟨parseWDay_empty, fun _ _ _ hw hne hp hn => parseWDay_zero_prefix hw hne hp hn,
+   fun _ _ _ last hw hin hl hn => parseWDay_zero_paren last hw hin hl hn,
+   fun _ hne hp hsd hl => parseWDay_unknown_name hne hp hsd hl⟩
+
+-- non-vacuity: an unknown name, a bad integer, a pair without `=`, in the middle of a line
+example : parseRRuleLine (lit "RRULE:FREQ=DAILY;FOO=1;COUNT=2") = .error .ValueError :=
+  unknown_part_ValueError (value := lit "FREQ=DAILY;FOO=1;COUNT=2") (p := lit "FOO=1") (name := lit "FOO") (v := lit "1")
+    (by decide) (by decide) (by decide) (by decide)
+example : parseRRuleLine (lit "FREQ=DAILY;interval=x") = .error .ValueError :=
+  malformed_value_ValueError (value := lit "FREQ=DAILY;interval=x") (p := lit "interval=x") (by decide) (by decide)
+    (.badInt _ (lit "interval") (lit "x") (by decide) (by decide) (by decide))
+example : parseRRuleLine (lit "FREQ=DAILY;COUNT") = .error .ValueError :=
+  malformed_value_ValueError (value := lit "FREQ=DAILY;COUNT") (p := lit "COUNT") (by decide) (by decide)
+    (.notPair _ (by decide))
+example : parseRRuleLine (lit "FREQ=DAILY;BYDAY=MO,,TU") = .error .ValueError :=
+  malformed_value_ValueError (value := lit "FREQ=DAILY;BYDAY=MO,,TU") (p := lit "BYDAY=MO,,TU") (by decide) (by decide)
+    (.badDay _ (lit "BYDAY") (lit "MO,,TU") [] .ValueError (by decide) (by decide) (by decide) (by decide))
+example : parseRfc (lit "DTSTART:19970902T090000") {} = .error .ValueError := by decide   -- no RRULE at all (fixed)
+example : parseRfc (lit "INTERVAL=2") {} = .error .ValueError := by decide                 -- missing FREQ (fixed)
+
+/-! ## 3. letter case -/
+
+/-- the text is upper-cased as a whole before anything else: the case of the input is irrelevant.
+    (Honest note: this includes the UNTIL / DTSTART / RDATE / EXDATE date texts and TZID names, which reach
+    `parser.parse` upper-cased; TZID names are mapped back through `TZID_NAMES`, outside this model.) -/
+theorem case_irrelevant (s : List Char) (o : Opts) (kw : Bool) : parseRfc (upper s) o kw = parseRfc s o kw := by
+  unfold parseRfc; rw [upper_idem]
+
+example : upper (lit "rrule:freq=Daily;byday=+1mo") = lit "RRULE:FREQ=DAILY;BYDAY=+1MO" := by decide
+
+/-! ## 4. BYDAY spellings -/
+
+/-- for every weekday and every n ≠ 0 the spellings `+nWD` (`-nWD`), `nWD`, `WD(+n)`, `WD(n)` of a BYDAY item all parse to
+    `weekday(wd, n)`, and the bare `WD` to `weekday(wd)` — for ALL n, not a sample (for n > 0 `showIntSigned n` is `+n`
+    and `showInt n` is `n`; for n < 0 both are `-n`) -/
+theorem byday_spellings (k : Int) (h0 : 0 ≤ k) (h6 : k ≤ 6) (n : Int) (hn : n ≠ 0) :
+    parseWDay (showIntSigned n ++ wdName k) = .ok (k, some n) ∧
+    parseWDay (showInt n ++ wdName k) = .ok (k, some n) ∧
+    parseWDay (wdName k ++ '(' :: (showIntSigned n ++ [')'])) = .ok (k, some n) ∧
+    parseWDay (wdName k ++ '(' :: (showInt n ++ [')'])) = .ok (k, some n) ∧
+    parseWDay (wdName k) = .ok (k, none) := by
+  have hw := isWD_wdName k h0 h6
+  refine ⟨?_, ?_, ?_, ?_, parseWDay_bare hw⟩
+  · exact parseWDay_prefix hw (showIntSigned_ne_nil n) (showIntSigned_signDigit n) (RRuleStr.pyInt_showIntSigned n) hn
+  · exact parseWDay_prefix hw (showInt_ne_nil n) (showInt_signDigit n) (RRuleStr.pyInt_showInt n) hn
+  · exact parseWDay_paren ')' hw (isSignDigit_not_paren (showIntSigned_signDigit n)) (by decide)
+      (RRuleStr.pyInt_showIntSigned n) hn
+  · exact parseWDay_paren ')' hw (isSignDigit_not_paren (showInt_signDigit n)) (by decide) (RRuleStr.pyInt_showInt n) hn
+
+/-- `BYDAY=` and `BYWEEKDAY=` are the same handler -/
+theorem byday_eq_byweekday (value : List Char) : handleU (lit "BYDAY") value = handleU (lit "BYWEEKDAY") value :=
+  handleU_byday_eq_byweekday value
+
+example : parseWDay (lit "+1MO") = .ok (0, some 1) ∧ parseWDay (lit "1MO") = .ok (0, some 1) ∧
+    parseWDay (lit "MO(+1)") = .ok (0, some 1) ∧ parseWDay (lit "-2FR") = .ok (4, some (-2)) := by decide
+
+/-! ## 5. order of the parts -/
+
+/-- for `NAME=VALUE` parts that set pairwise different keywords (judged by their names; BYDAY and BYWEEKDAY are the same
+    keyword), the loop of `_parse_rfc_rrule` gives the same result over any permutation: the same arguments when all
+    parts parse, and (with `errors_are_ValueError`) ValueError in every order otherwise -/
+theorem parts_order_irrelevant {ps qs : List (List Char)} (hperm : ps.Perm qs) (hd : ps.Pairwise Distinct) (a : RArgs) :
+    ps.foldlM stepPair a = qs.foldlM stepPair a := foldlM_stepPair_perm hperm hd a
+
+/-- the same at the level of the RRULE value -/
+theorem parts_order_irrelevant_line {v1 v2 : List Char} (h1 : ':' ∉ v1) (h2 : ':' ∉ v2)
+    (hperm : (splitOnChar ';' v1).Perm (splitOnChar ';' v2)) (hd : (splitOnChar ';' v1).Pairwise Distinct) :
+    parseRRuleLine v1 = parseRRuleLine v2 := by
+  rw [parseRRuleLine_of_lineValue (lineValue_noColon h1), parseRRuleLine_of_lineValue (lineValue_noColon h2)]
+  exact foldlM_stepPair_perm hperm hd {}
+
+example : parseRRuleLine (lit "COUNT=3;BYDAY=MO;FREQ=WEEKLY") = parseRRuleLine (lit "FREQ=WEEKLY;COUNT=3;BYDAY=MO") :=
+  parts_order_irrelevant_line (by decide) (by decide) (by decide) (by decide)
+
+/-! ## 6. str / rrulestr round trip -/
+
+/-- the `RRULE:` line of `str(rule)` parses back to exactly the printed arguments, for EVERY rule in printable normal form
+    (`Printable`: freq < 7, wkst in 0..6, BY-lists non-empty when present, weekday numbers 0..6 with n ≠ 0 when present;
+    interval, count and all list members arbitrary integers) -/
+theorem str_roundtrip_line (x : StrIn) (hx : Printable x) : parseRRuleLine (rruleLineOf x) = .ok (argsOf x) :=
+  parseRRuleLine_rruleLineOf x hx
+
+/-- the compact date form `YYYYMMDDTHHMMSS` that `__str__` emits for DTSTART and UNTIL reads back field by field -/
+theorem compact_roundtrip (y m d hh mm ss : Nat) (hy : y < 10000) (hm : m < 100) (hd : d < 100) (hh' : hh < 100)
+    (hmm : mm < 100) (hss : ss < 100) : parseCompact (showDT (y, m, d, hh, mm, ss)) = .compact y m d hh mm ss false :=
+  parseCompact_showDT y m d hh mm ss hy hm hd hh' hmm hss
+
+/-- `rrulestr(str(rule))` (no options) for every printable rule with a start: a single rule with exactly the printed
+    arguments and the printed DTSTART text.  "Same occurrences" follows with C01 (`rrule()` is a function of these
+    arguments and the start) and `compact_roundtrip` for the two date texts. -/
+theorem str_roundtrip (x : StrIn) (hx : Printable x) (t : Nat × Nat × Nat × Nat × Nat × Nat) (ht : x.dtstart = some t) :
+    parseRfc (toStr x) {} = .ok (.rule (argsOf x) (some (showDT t, []))) := parseRfc_toStr x hx t ht
+
+/-- a rule printed without a DTSTART line (cannot happen for a constructed rule) -/
+theorem str_roundtrip_nostart (x : StrIn) (hx : Printable x) (ht : x.dtstart = none) :
+    parseRfc (toStr x) {} = .ok (.rule (argsOf x) none) := parseRfc_toStr_none x hx ht
+
+/-- items 3, 5 and 6 together — "every spelling": take the parts of `str(rule)` in ANY order (`List.Perm`), join them with
+    `;`, write the text in ANY letter case: the RRULE value still parses to exactly the printed arguments.  (The parts of
+    `str(rule)` set pairwise different keywords: `partsOf_distinct`.) -/
+theorem str_roundtrip_any_order_any_case (x : StrIn) (hx : Printable x) (qs : List (List Char))
+    (hperm : (partsOf x).Perm qs) (txt : List Char) (hcase : upper txt = intercalate [';'] qs) :
+    parseRRuleLine (upper txt) = .ok (argsOf x) ∧
+    parseRfc txt {} = parseRfc (intercalate [';'] qs) {} := by
+  refine ⟨by rw [hcase]; exact parseRRuleLine_perm x hx qs hperm, ?_⟩
+  rw [← case_irrelevant txt, hcase]
+
+/-- a rule with most things in it: nth weekdays of both signs, negative list members, WKST, INTERVAL, UNTIL, year < 1000 -/
+def sample : StrIn :=
+  { dtstart := some (999, 1, 2, 3, 4, 5), freq := 1, interval := 2, wkst := 6, count := none,
+    untilV := some (2000, 12, 31, 23, 59, 59),
+    orig := { bymonthday := some [-1, 15], byweekday := some [(0, some 1), (4, some (-2)), (6, none)], byeaster := some [0, -2] } }
+
+example : Printable sample := by
+  constructor <;> first | decide | (intro l h; cases h; exact ⟨by decide, by decide⟩)
+example : (argsOf sample).byweekday = some [(0, some 1), (4, some (-2)), (6, none)] ∧ (argsOf sample).wkst = some 6 := by decide
+
+example : (partsOf sample).Perm (partsOf sample).reverse ∧ upper (lit "byeaster=0,-2") = lit "BYEASTER=0,-2" :=
+  ⟨(List.reverse_perm _).symm, by decide⟩
+
+/-! ## 7. sets, forceset, compatible -/
+
+/-- structured lines (no parameters) joined by newlines: with two or more RRULE lines, or any RDATE / EXRULE / EXDATE
+    line, or `forceset`, the result is the set with exactly those members in order — every RRULE and every EXRULE value
+    parsed (`ruleOf`; the first failure is the result), RDATE values split at `,`, EXDATE values, the last DTSTART -/
+theorem multi_line_builds_set (ls : List Line) (hok : ∀ l ∈ ls, l.ok)
+    (htext : ∀ l ∈ ls, ∀ c ∈ l.render, isLower c = false ∧ ICal.isSpace c = false)
+    (o : Opts) (hu : o.unfold = false) (hc : o.compatible = false) (kw : Bool)
+    (hne : ls ≠ []) (hmany : 2 ≤ ls.length ∨ o.forceset = true)
+    (hset : o.forceset = true ∨ 2 ≤ (rruleVals ls).length ∨ rdateVals ls ≠ [] ∨ exruleVals ls ≠ [] ∨ exdateVals ls ≠ []) :
+    parseRfc (intercalate ['\n'] (ls.map Line.render)) o kw = setOf ls false kw := by
+  rw [parseRfc_lines ls hne htext o hu hc kw]
+  refine parseLines_builds_set _ ls hok _ _ _ ?_ hset
+  rcases hmany with h | h
+  · exact shortcut_two _ _ _ (by simp; omega)
+  · rw [h]; rfl
+
+/-- the same lines without a reason for a set: one RRULE, DTSTART lines besides it — a single rule with the last DTSTART -/
+theorem multi_line_single_rule (ls : List Line) (hok : ∀ l ∈ ls, l.ok)
+    (htext : ∀ l ∈ ls, ∀ c ∈ l.render, isLower c = false ∧ ICal.isSpace c = false)
+    (o : Opts) (hu : o.unfold = false) (hc : o.compatible = false) (hf : o.forceset = false) (kw : Bool) (v : List Char)
+    (hmany : 2 ≤ ls.length) (hr : rruleVals ls = [v]) (h1 : rdateVals ls = []) (h2 : exruleVals ls = [])
+    (h3 : exdateVals ls = []) :
+    parseRfc (intercalate ['\n'] (ls.map Line.render)) o kw = buildRule v (dtstartOf ls) := by
+  have hne : ls ≠ [] := by rintro rfl; simp at hmany
+  rw [parseRfc_lines ls hne htext o hu hc kw, hf]
+  exact parseLines_builds_rule _ ls hok _ _ v (shortcut_two _ _ _ (by simp; omega)) hr h1 h2 h3
+
+/-- `forceset=True` (or `compatible=True`) never yields a bare rule: every successful result is a set, and its DTSTART-as-RDATE
+    flag is `compatible ∧ (a DTSTART line was seen ∨ dtstart= was passed)` -/
+theorem forceset {s : List Char} {o : Opts} {kw : Bool} {r : Parsed} (ho : o.forceset = true ∨ o.compatible = true)
+    (h : parseRfc s o kw = .ok r) :
+    ∃ rr ex rd exd dt, r = .set rr ex rd exd dt (o.compatible && (dt.isSome || kw)) := parseRfc_forceset ho h
+
+/-- `compatible=True` is `forceset=True` and `unfold=True` … -/
+theorem compatible (s : List Char) (o : Opts) (kw : Bool) (hc : o.compatible = true) :
+    parseRfc s o kw = parseRfc s { unfold := true, forceset := true, compatible := true } kw := parseRfc_compatible s o kw hc
+
+/-- … and sets the flag that adds DTSTART as an RDATE exactly when a start is known (on the collected lines) -/
+theorem compatible_adds_dtstart (s : List Char) (ls : List Line) (hok : ∀ l ∈ ls, l.ok) (kw : Bool) :
+    parseLines s (ls.map Line.render) true true kw = (do
+      let rr ← (rruleVals ls).mapM ruleOf
+      let ex ← (exruleVals ls).mapM ruleOf
+      .ok (.set rr ex ((rdateVals ls).map (splitOnChar ',')).flatten (exdateVals ls) (dtstartOf ls) ((dtstartOf ls).isSome || kw))) :=
+  parseLines_compatible_flag s ls hok kw
+
+def sampleLines : List Line :=
+  [.dtstart (lit "19970902T090000"), .rrule (lit "FREQ=DAILY;COUNT=3"), .rdate (lit "19970910T090000,19970911T090000"),
+   .exrule (lit "FREQ=WEEKLY;COUNT=2"), .exdate (lit "19970902T090000")]
+
+example : (∀ l ∈ sampleLines, l.ok) ∧ 2 ≤ sampleLines.length ∧ rdateVals sampleLines ≠ [] := by decide
+example : ∃ rr ex, setOf sampleLines false false =
+    .ok (.set rr ex [lit "19970910T090000", lit "19970911T090000"] [(lit "19970902T090000", [])] (some (lit "19970902T090000", [])) false) :=
+  ⟨_, _, rfl⟩
+example : ∃ r, parseRfc (lit "FREQ=DAILY;COUNT=2") { forceset := true } = .ok r := ⟨_, rfl⟩
+
 end C13
